@@ -46,6 +46,7 @@ type FuncV struct{ Fn *ssa.Function }
 type comp struct {
 	sort *Sort
 	name string
+	tag  string // typed-memory tag: cells of different Go types live in different arrays
 }
 
 type Mode int
@@ -100,26 +101,57 @@ func (l layout) comps(t types.Type) []comp {
 	case *types.Basic:
 		switch {
 		case u.Info()&types.IsBoolean != 0:
-			return []comp{{BoolSort, ""}}
+			return []comp{{BoolSort, "", "bool"}}
 		case u.Info()&types.IsInteger != 0:
-			return []comp{{l.intSort(u), ""}}
+			return []comp{{l.intSort(u), "", basicTag(u)}}
 		case u.Info()&types.IsString != 0:
-			return []comp{{RefSort, "arr"}, {l.idxSort(), "off"}, {l.idxSort(), "len"}}
+			return []comp{{RefSort, "arr", "str"}, {l.idxSort(), "off", "str"}, {l.idxSort(), "len", "str"}}
 		case u.Kind() == types.UnsafePointer:
-			return []comp{{RefSort, ""}}
+			return []comp{{RefSort, "", "uptr"}}
 		case u.Kind() == types.UntypedNil:
-			return []comp{{RefSort, ""}}
+			return []comp{{RefSort, "", "nil"}}
 		case u.Info()&types.IsFloat != 0:
-			return []comp{{IntSort, "float"}}
+			return []comp{{IntSort, "float", "float"}}
 		}
-	case *types.Pointer, *types.Map, *types.Chan, *types.Signature:
-		return []comp{{RefSort, ""}}
+	case *types.Pointer:
+		return []comp{{RefSort, "", "ptr_" + sanitize(typeKey(u.Elem()))}}
+	case *types.Map:
+		return []comp{{RefSort, "", "map"}}
+	case *types.Chan, *types.Signature:
+		return []comp{{RefSort, "", "ref"}}
 	case *types.Slice:
-		return []comp{{RefSort, "arr"}, {l.idxSort(), "off"}, {l.idxSort(), "len"}, {l.idxSort(), "cap"}}
+		tg := "slice_" + sanitize(typeKey(u.Elem()))
+		return []comp{{RefSort, "arr", tg}, {l.idxSort(), "off", tg}, {l.idxSort(), "len", tg}, {l.idxSort(), "cap", tg}}
 	case *types.Interface:
-		return []comp{{RefSort, "ref"}, {IntSort, "typ"}}
+		return []comp{{RefSort, "ref", "iface"}, {IntSort, "typ", "iface"}}
 	}
 	return nil
+}
+
+func basicTag(u *types.Basic) string {
+	switch u.Kind() {
+	case types.Int8:
+		return "int8"
+	case types.Int16:
+		return "int16"
+	case types.Int32:
+		return "int32"
+	case types.Int64:
+		return "int64"
+	case types.Uint8:
+		return "uint8"
+	case types.Uint16:
+		return "uint16"
+	case types.Uint32:
+		return "uint32"
+	case types.Uint64:
+		return "uint64"
+	case types.Uint:
+		return "uint"
+	case types.Uintptr:
+		return "uintptr"
+	}
+	return "int"
 }
 
 // ---------------------------------------------------------------- field ids
@@ -189,12 +221,25 @@ func sortKey(s *Sort) string {
 	return "X"
 }
 
-func (h *Heap) cellArr(s *Sort) (string, *Term) {
-	key := "H:" + sortKey(s)
+var keySorts = map[string]*Sort{}
+var touchedKeys = map[string]bool{}
+
+func (h *Heap) cellArr(s *Sort, tag string) (string, *Term) {
+	key := "H:" + sortKey(s) + ":" + tag
+	keySorts[key] = s
 	if a, ok := h.arrays[key]; ok {
 		return key, a
 	}
-	return key, Var("H_"+sortKey(s)+"_0", ArraySort(RefSort, s))
+	return key, Var("H_"+sortKey(s)+"_"+tag+"_0", ArraySort(RefSort, s))
+}
+
+func (h *Heap) cellArrByKey(key string) *Term {
+	if a, ok := h.arrays[key]; ok {
+		return a
+	}
+	parts := strings.SplitN(key, ":", 3)
+	s := keySorts[key]
+	return Var("H_"+parts[1]+"_"+parts[2]+"_0", ArraySort(RefSort, s))
 }
 
 func (h *Heap) elemArr(s *Sort, k int) (string, *Term) {
@@ -205,13 +250,14 @@ func (h *Heap) elemArr(s *Sort, k int) (string, *Term) {
 	return key, Var(fmt.Sprintf("M_%s_%d_0", sortKey(s), k), ArraySort(RefSort, ArraySort(h.l.idxSort(), s)))
 }
 
-func (h *Heap) readCell(s *Sort, addr *Term) *Term {
-	_, a := h.cellArr(s)
+func (h *Heap) readCell(s *Sort, tag string, addr *Term) *Term {
+	_, a := h.cellArr(s, tag)
 	return Select(a, addr)
 }
 
-func (h *Heap) writeCell(s *Sort, addr, v *Term) {
-	key, a := h.cellArr(s)
+func (h *Heap) writeCell(s *Sort, tag string, addr, v *Term) {
+	key, a := h.cellArr(s, tag)
+	touchedKeys[key] = true
 	h.arrays[key] = Store(a, addr, v)
 }
 
@@ -227,11 +273,13 @@ func (h *Heap) elemRow(s *Sort, k int, arr *Term) *Term {
 
 func (h *Heap) writeElem(s *Sort, k int, arr, idx, v *Term) {
 	key, a := h.elemArr(s, k)
+	touchedKeys[key] = true
 	h.arrays[key] = Store(a, arr, Store(Select(a, arr), idx, v))
 }
 
 func (h *Heap) setElemRow(s *Sort, k int, arr, row *Term) {
 	key, a := h.elemArr(s, k)
+	touchedKeys[key] = true
 	h.arrays[key] = Store(a, arr, row)
 }
 
@@ -297,7 +345,7 @@ func (h *Heap) load(t types.Type, addr *Term) Value {
 	}
 	ts := make([]*Term, len(cs))
 	for k, c := range cs {
-		ts[k] = h.readCell(c.sort, subAddr(addr, k))
+		ts[k] = h.readCell(c.sort, c.tag, subAddr(addr, k))
 	}
 	return h.l.fromComps(t, ts)
 }
@@ -322,7 +370,7 @@ func (h *Heap) store(t types.Type, addr *Term, v Value) {
 	cs := h.l.comps(t)
 	ts := h.l.toComps(t, v)
 	for k, c := range cs {
-		h.writeCell(c.sort, subAddr(addr, k), ts[k])
+		h.writeCell(c.sort, c.tag, subAddr(addr, k), ts[k])
 	}
 }
 
@@ -410,8 +458,7 @@ func (h *Heap) initial(key string) *Term {
 	case strings.HasPrefix(key, "H:"):
 		n := h.clone()
 		n.arrays = map[string]*Term{}
-		_, a := n.cellArr(sortFromKey(key[2:]))
-		return a
+		return n.cellArrByKey(key)
 	case strings.HasPrefix(key, "M:"):
 		parts := strings.SplitN(key[2:], "#", 2)
 		k := 0
